@@ -362,7 +362,16 @@ def judge_keep_going(ops, outcomes, first_illegal, is_close, who):
     return ""
 
 
-CALLER = {"in_handler": False}
+CALLER = {"in_handler": False, "with_block": False}
+
+
+def close_it(obj):
+    """The close call of a history: close(), or - for callers that use the object as a context manager - leaving the
+    `with` block normally."""
+    if CALLER["with_block"]:
+        obj.__exit__(None, None, None)
+    else:
+        obj.close()
 
 
 def caller_context(fn):
@@ -392,7 +401,7 @@ def run_py_keep_going(model, proto, api, pyvals, data, ops, fmt="binary"):
                 if op[0] == "W":
                     meths[op[1]](list(pyvals[op[1]]) if proto.steps[op[1]][2] else pyvals[op[1]])
                 else:
-                    w.close()
+                    close_it(w)
                 out.append(True)
             except Exception:  # noqa
                 out.append(False)
@@ -419,7 +428,7 @@ def run_py_keep_going(model, proto, api, pyvals, data, ops, fmt="binary"):
                 if it is not None and hasattr(it, "close"):
                     it.close()
             else:
-                r.close()
+                close_it(r)
             out.append(True)
         except Exception:  # noqa
             out.append(False)
@@ -564,7 +573,7 @@ def run_py_writer(model, proto, pyvals, ops, fmt="binary"):
                 v = pyvals[k]
                 meths[k](list(v) if proto.steps[k][2] else v)
             else:
-                w.close()
+                close_it(w)
         except Exception as e:  # noqa
             return i, e
     return None, None
@@ -599,7 +608,7 @@ def run_py_writer_with_failed_call(model, proto, pyvals, ops, fmt="binary"):
                     continue
                 return "poison_did_not_raise", "", acked, b""
             else:
-                w.close()
+                close_it(w)
         except Exception as e:  # noqa
             if op[0] == "W?":
                 continue                 # refusing to go back is what the step order demands
@@ -637,7 +646,7 @@ def run_py_reader(model, proto, data, ops, fmt="binary", skip_completed_check=Fa
                 if it is not None and hasattr(it, "close"):
                     it.close()
             else:
-                r.close()
+                close_it(r)
         except Exception as e:  # noqa
             return i, e
     return None, None
@@ -680,7 +689,8 @@ def judge_verdicts(verdicts, expect, calls, ops, who):
 def doc(model, proto, ctx, api, ops, counts, detail):
     return {"kind": "c07", "pkg": sw.pack_pkg(model.pkg), "files": M.render_tree(model.pkg, ""), "protocol": proto.name, "api": api, "ops": ops,
             "counts": counts, "detail": detail[:500], "seed": ctx["seed"], "model_index": ctx["i"],
-            "caller_in_handler": bool(CALLER["in_handler"]) and api.startswith("python")}
+            "caller_in_handler": bool(CALLER["in_handler"]) and api.startswith("python"),
+            "caller_uses_with_block": bool(CALLER["with_block"]) and api.startswith("python")}
 
 
 def model_task(task, ybin, root):
@@ -713,6 +723,7 @@ def model_task(task, ybin, root):
             for h in range(H):
                 hr = pr.fork("pw", h)
                 CALLER["in_handler"] = hr.fork("caller").chance(0.3)
+                CALLER["with_block"] = hr.fork("withblock").chance(0.3)
                 stats["py_histories_run_inside_an_exception_handler"] = stats.get("py_histories_run_inside_an_exception_handler", 0) + (1 if CALLER["in_handler"] else 0)
                 if h % 2 == 1:
                     ops, mk = until_close(guided(hr, draw_py_writer(streams), lambda o: py_writer_model(streams, o), lambda o: o[0] == "C", streams)), "guided"
@@ -753,6 +764,7 @@ def model_task(task, ybin, root):
             for h in range((3 if quick else 10) if plain else 0):
                 hr = pr.fork("failcall", h)
                 CALLER["in_handler"] = hr.fork("caller").chance(0.3)
+                CALLER["with_block"] = hr.fork("withblock").chance(0.3)
                 stats["py_histories_run_inside_an_exception_handler"] = stats.get("py_histories_run_inside_an_exception_handler", 0) + (1 if CALLER["in_handler"] else 0)
                 k = hr.choice(plain)
                 ops = []
@@ -790,6 +802,7 @@ def model_task(task, ybin, root):
             for h in range(4 if quick else 12):
                 hr = pr.fork("keepgoing", h)
                 CALLER["in_handler"] = hr.fork("caller").chance(0.3)
+                CALLER["with_block"] = hr.fork("withblock").chance(0.3)
                 stats["py_histories_run_inside_an_exception_handler"] = stats.get("py_histories_run_inside_an_exception_handler", 0) + (1 if CALLER["in_handler"] else 0)
                 kfmt = "ndjson" if hr.chance(0.3) else "binary"
                 ops = guided_keep_going(hr, draw_py_writer(streams), lambda o: py_writer_model(streams, o), lambda o: o[0] == "C", streams)
@@ -810,6 +823,7 @@ def model_task(task, ybin, root):
             for h in range(2 if quick else 8):
                 hr = pr.fork("cut", h)
                 CALLER["in_handler"] = hr.fork("caller").chance(0.3)
+                CALLER["with_block"] = hr.fork("withblock").chance(0.3)
                 stats["py_histories_run_inside_an_exception_handler"] = stats.get("py_histories_run_inside_an_exception_handler", 0) + (1 if CALLER["in_handler"] else 0)
                 hdr = len(data) - len(codec.encode_stream(proto, ns, "", vals)) + 10   # start of the values region
                 if hdr >= len(data):
@@ -937,6 +951,7 @@ def model_task(task, ybin, root):
 
 def replay_doc(d, ybin, root):
     CALLER["in_handler"] = bool(d.get("caller_in_handler"))
+    CALLER["with_block"] = bool(d.get("caller_uses_with_block"))
     pkg = sw.unpack_pkg(d["pkg"])
     api = d["api"]
     want_cpp = api.startswith("cpp")
